@@ -212,8 +212,18 @@ impl Prop for PCli {
         // the shape of the expression comes from the C01 generator; leaves become real primaries
         let mut toks: Vec<String> = vec![];
         let budget = 1 + rng.below(if tier == "thorough" { 10 } else { 6 });
-        gen_list(rng, &mut toks, budget, 0, 3, 3);
-        if rng.chance(1, 5) && !toks.is_empty() {
+        // every third command line is short - one or two primaries - so that what it names is actually evaluated
+        // (a long random line is nearly always rejected for some other word before anything runs)
+        let short = _idx % 3 == 1;
+        if short {
+            toks.push(if rng.chance(1, 2) { "a1".into() } else { "t1".into() });
+            if rng.chance(1, 3) {
+                toks.push(if rng.chance(1, 2) { "a2".into() } else { "t2".into() });
+            }
+        } else {
+            gen_list(rng, &mut toks, budget, 0, 3, 3);
+        }
+        if !short && rng.chance(1, 5) && !toks.is_empty() {
             let k = rng.below(toks.len());
             match rng.below(3) {
                 0 => {
@@ -233,6 +243,17 @@ impl Prop for PCli {
                 "not" | "and" | "or" | "comma" | "lp" | "rp" => words.push(json!({"k": "op", "t": t})),
                 _ => words.push(gen_prim(rng, t.starts_with('a'), i + 1 == n)),
             }
+        }
+        if short && rng.chance(1, 5) {
+            // a primary that takes operands as the only word of the expression, without them (or with the first of two)
+            let p = *rng.pick(&["-fprintf", "-fprintf", "-fprint", "-fprint0", "-fls", "-printf", "-exec", "-execdir", "-name", "-newer", "-newermt", "-size",
+                                "-perm", "-regex", "-regextype", "-samefile", "-user", "-files0-from", "-maxdepth", "-mmin", "-inum", "-lname"]);
+            let half = p == "-fprintf" && rng.chance(1, 3);
+            words = vec![json!({"k": "prim", "prim": p, "kind": "action", "okind": if half { "missing1" } else { "missing" }})];
+        } else if short && rng.chance(1, 6) {
+            // a field as wide as (or wider than) what a formatting routine may be prepared for
+            let f = *rng.pick(&["%70000p\\n", "%-65536f|", "%65535d", "%65536s\\n", "%-99999y"]);
+            words = vec![json!({"k": "prim", "prim": "-printf", "kind": "action", "okind": "printf", "arg": bytes_to_json(f.as_bytes())})];
         }
         let mut v = json!({"words": words, "hazard": true, "form": rng.below(1000)});
         if rng.chance(1, 4) {
